@@ -11,7 +11,12 @@
 //   (s==1 and d==0) => a==true; after join isActive()==false; no data race (vector-clock detector over all instrumented accesses,
 //   a plain write racing with an atomic access to the same byte counts); no deadlock.
 #include "engine/common.hpp"
+#ifdef XS_FREE_RUNNING
+#include "engine/sched/xsched_free.hpp"      // real libtsan, free-running threads (cross-check pass)
+#else
 #include "engine/sched/xsched.hpp"
+#include "engine/sched/crosscheck.hpp"
+#endif
 #include "celma/common/singleton.hpp"
 #include "celma/common/managed_thread.hpp"
 #include <atomic>
@@ -72,6 +77,9 @@ static const Scen scens[] = {
    {"managed", body_managed, 3, 5}, {"managed-observer", body_managed_observer, 2, 3},
 };
 
+#ifdef XS_FREE_RUNNING
+int main(int argc, char** argv) { int reps = argc > 1 ? atoi(argv[1]) : 20; for (auto& s : scens) xs::run_free(s.name, s.body, reps); return 0; }
+#else
 int main(int argc, char** argv) {
    vf::init(argc, argv);
    vf::Ctx& c = vf::ctx();
@@ -106,7 +114,9 @@ int main(int argc, char** argv) {
       vf::fact(std::string("preemption_bound_") + s.name, std::to_string(o.bound));
       vf::nontrivial_by_construction(st.executions_with_switch_between_conflicting);
    }
+   if (c.shard == 0 && c.only < 0) xs::libtsan_crosscheck(vf::thorough() ? 200 : 25);
    vf::count("evaluations", execs); vf::count("states", execs); vf::count("transitions", points); vf::count("traces", execs); vf::count("race_reports", races);
    vf::finish();
    return 0;
 }
+#endif
